@@ -166,8 +166,7 @@ def check_program(res: Result, src, main, inputs, features, origin):
                 res.cls('f:' + f)
             if sensitive or tagged:
                 res.nontrivial((sh, idx))
-                if res.evaluations % 97 == 0:
-                    res.sample(case, nt=True)
+                res.maybe_sample(case, nt=True)
             if got[0] == 'raise':
                 res.fail(f'raises:{got[1]}', case, expected=ref[1], got=f'{got[1]}: {got[2]}')
             elif got[1] != ref[1]:
